@@ -171,6 +171,11 @@ func computeBcrypt(opts HashOpts, pass string) (string, error) {
 }
 
 func verifyBcrypt(pass, hashSalt string) error {
+	// bcrypt uses only the first 72 bytes and GenerateFromPassword refuses
+	// longer passwords: anything longer is not a password that was set.
+	if len(pass) > 72 {
+		return bcrypt.ErrMismatchedHashAndPassword
+	}
 	return bcrypt.CompareHashAndPassword([]byte(hashSalt), []byte(pass))
 }
 
